@@ -1,7 +1,7 @@
 (* Executable entry points of the C15 correspondence check (the receiver model is C14's). *)
 From Coq Require Import List NArith ZArith Bool String.
 Import ListNotations.
-From TV Require Import Lib.Obs C14.Model C14.Run.
+From TV Require Import Lib.Obs C14.Model C14.Ref C14.Run.
 Local Open Scope N_scope.
 
 Inductive vcase :=
@@ -15,17 +15,35 @@ Definition run_case (c : vcase) : obs :=
   | VCase decomp max key eof wire tape _ _ => recv_case decomp max key eof wire tape
   end.
 
-(* the property on the implementation's observable: after a violation the connection is
-   aborted (both termination flags set, stream closed, receive loop left), exactly the
-   messages completed before it were delivered, nothing else *)
+(* the former checker: the expectation (messages completed before the violation, violated or
+   not) is the one declared by the harness-side peer; used when the reference is undecided *)
+Definition declared_check_v (eof : bool) (before : list (bool * blob)) (violated : bool) (o : obs) : bool :=
+  match o with
+  | OList [OTag tag; OList evs; OList [OBool ct; OBool st; OBool cl]; _; _; _] =>
+      obs_eqb (OList (delivered evs)) (OList (expected_obs before))
+      && (if violated then String.eqb tag "Done" && ct && st && cl
+          else if eof then String.eqb tag "Done" else String.eqb tag "Waiting" && negb cl && negb ct)
+  | _ => false
+  end.
+
+(* the declaration must be what the reference decoder computes from the bytes (input only) *)
+Definition meta_consistent (decomp : option bool) (max : N) (tape : itape) (wire : bytes)
+           (before : list (bool * blob)) (violated : bool) : bool :=
+  match ref_decode itape tape_inflate decomp max tape wire with
+  | RDecided dl s =>
+      obs_eqb (OList (msgs_obs dl)) (OList (expected_obs before))
+      && (match s with SAbort => violated | SAlive => negb violated | SPartial | SClosed => true end)
+  | RUnknown => true
+  end.
+
+(* the property on the implementation's observable: the reference decoder (C14/Ref.v) says,
+   from the input bytes alone, which messages must be delivered and whether the connection
+   must have been aborted (both termination flags set, stream closed, receive loop left) *)
 Definition check_case (c : vcase) (o : obs) : bool :=
   match c with
-  | VCase _ _ _ eof _ _ before violated =>
-      match o with
-      | OList [OTag tag; OList evs; OList [OBool ct; OBool st; OBool cl]; _; _; _] =>
-          obs_eqb (OList (delivered evs)) (OList (expected_obs before))
-          && (if violated then String.eqb tag "Done" && ct && st && cl
-              else if eof then String.eqb tag "Done" else String.eqb tag "Waiting" && negb cl && negb ct)
-      | _ => false
+  | VCase decomp max _ eof wire tape before violated =>
+      match ref_check decomp max eof tape (expand wire) o with
+      | Some b => b && meta_consistent decomp max tape (expand wire) before violated
+      | None => declared_check_v eof before violated o
       end
   end.
